@@ -44,4 +44,13 @@ pub mod hex {
     pub trait HexArg { spec fn hex_bytes(&self) -> Seq<u8>; }
     #[verifier::external_body]
     pub fn encode<T: HexArg>(t: T) -> (r: String) ensures r@ == hex_of(t.hex_bytes()) { unimplemented!() }
+    #[verifier::external_body]
+    pub struct FromHexError { e: u8 }
+    /// hex::decode / decode_to_slice: accept upper AND lower case digits (results otherwise unconstrained)
+    #[verifier::external_body]
+    pub fn decode<T: crate::shims::bytes::BytesArg>(t: T) -> (r: ::std::result::Result<Vec<u8>, FromHexError>) { unimplemented!() }
+    #[verifier::external_body]
+    pub fn decode_to_slice<T: crate::shims::bytes::BytesArg>(t: T, out: &mut [u8]) -> (r: ::std::result::Result<(), FromHexError>)
+        ensures final(out)@.len() == old(out)@.len()
+    { unimplemented!() }
 }
